@@ -189,6 +189,27 @@ def main(argv):
         else:
             bounded = hres.get("bounded", [])
 
+    # ------------------------------------------------------------------ 3b. thorough: run-time monitoring of the contracts
+    monitoring = None
+    crash = []
+    if tier == "thorough" and targets:
+        outp = os.path.join(ROOT, "tmp", f"monitor-{pid}.json")
+        os.makedirs(os.path.dirname(outp), exist_ok=True)
+        env = dict(os.environ, PYTHONPATH=ROOT, PYVC_MONITOR_OUT=outp)
+        try:
+            subprocess.run([VENV_PY, "-m", "pytest", "-q", "-p", "no:cacheprovider", "-p", "harness.monitor_plugin", "--timeout=900"],
+                           cwd=REPO, env=env, capture_output=True, text=True, timeout=1800)
+            mon = json.load(open(outp))
+            mine = {t: v for t, v in mon.items() if t in targets}
+            monitoring = {"functions": len(mine), "calls": sum(v["calls"] for v in mine.values()),
+                          "checked": sum(v["checked"] for v in mine.values()),
+                          "fired": {t: v["fired"] for t, v in mine.items() if v["fired"]}}
+            for t, v in mine.items():
+                if v["fired"]:
+                    crash.append(f"contract of {t} fired under the repository's test suite although it is proved: {v['fired'][0]}")
+        except Exception as err:  # noqa: BLE001
+            monitoring = {"error": repr(err)[:300]}
+
     # ------------------------------------------------------------------ 4. verdicts
     failing_inputs = hres.get("failures", []) if hres else []
     unknown_failures = [f for f in failing_inputs if not f.get("known")]
@@ -288,6 +309,7 @@ def main(argv):
         "undecided": [list(u) for u in undecided],
         "known_findings_printed": known_printed,
         "bounded": bounded,
+        "runtime_monitoring_under_repo_tests": monitoring,
         "samples": samples or [{"note": "no obligations"}],
         "explanation": cfg.get("explanation", ""),
         "evaluations": max(1, n_obl + (hres.get("evaluations", 0) if hres else 0)),
@@ -322,6 +344,10 @@ def main(argv):
         json.dump(full, open(p, "w"), indent=0, sort_keys=True)
     if violations:
         return 1
+    if crash:
+        for c in crash:
+            print(f"ENGINE-DISCREPANCY property={pid} {c}")
+        return 3
     if undecided:
         return 2
     return 0
